@@ -25,7 +25,7 @@ RULE = (
 )
 ASSUMPTIONS = [
     "well-formed input only: contiguous residues, every numeric field present (occupancy may be absent in mmCIF)",
-    "corpus mmCIF rows that carry neither a complete label identity nor a complete author identity (8btk_B7 hetero groups without auth_comp_id and with label_seq_id '.') are outside the quantifier; the reader skips them by design",
+    "corpus mmCIF rows that carry neither a complete label identity (asym, numeric seq, comp) nor an author identity (asym, seq; name from auth or label) are outside the quantifier; the reader skips them by design",
     "ties in occupancy accept any maximal copy; clusters of >=3 mutually close atoms only require that no two survivors are certainly closer than 0.5 A",
     "trusted: harness emitters/decoders in rnaverif/atomtab.py (CIF tokenizer cross-checked against IoAdapterPy on the corpus)",
 ]
